@@ -16,7 +16,8 @@ package raft
 //@ pure KeyIsID(c Config) bool = forall(k, has(c.Nodes, k) ==> c.Nodes[k].ID == k)
 //@ pure ReplsCover(l *leader) bool = l.repls != nil && forall(k, has(l.configs.Latest.Nodes, k) && k != l.nid ==> has(l.repls, k) && l.repls[k] != nil)
 //@ pure LeaderCache(l *leader) bool = l.numVoters == NumVoters(l.configs.Latest) && l.node == l.configs.Latest.Nodes[l.nid]
-//@ pure MajorityPre(l *leader) bool = ReplsCover(l) && KeyIsID(l.configs.Latest) && LeaderCache(l) && NumVoters(l.configs.Latest) >= 1
+//@ pure MatchBound(l *leader) bool = forall(k, has(l.repls, k) && l.repls[k] != nil ==> l.repls[k].status.matchIndex <= l.lastLogIndex)
+//@ pure MajorityPre(l *leader) bool = ReplsCover(l) && KeyIsID(l.configs.Latest) && LeaderCache(l) && NumVoters(l.configs.Latest) >= 1 && MatchBound(l)
 //@ pure QuorumHas(l *leader, v uint64) bool = cntge(col(l.configs.Latest.Nodes, Voter), MatchOf(l), keys(l.configs.Latest.Nodes), v) >= NumVoters(l.configs.Latest)/2 + 1
 
 // sort.Sort on a decrUint64Slice (T-std): a permutation (counts of elements >= v are unchanged
@@ -32,5 +33,6 @@ package raft
 //@   requires l.Raft != nil && l.storage != nil && MajorityPre(l)
 //@   props C06 C11
 //@   ensures [C02.majority] QuorumHas(l, result0)
+//@   ensures [C02.majority-bound] result0 <= l.lastLogIndex
 //@   loop 1 invariant subset(visitedset(), keys(l.configs.Latest.Nodes)) && 0 <= i && i == cntv(col(l.configs.Latest.Nodes, Voter), visitedset()) && len(matched) == card(keys(l.configs.Latest.Nodes))
 //@   loop 1 invariant forall(v, scge(matched, i, v) == cntge(col(l.configs.Latest.Nodes, Voter), MatchOf(l), visitedset(), v))
